@@ -105,7 +105,7 @@ def terms(cfg, gen, comb):
     return dict(exact=comb.exact(n), S=S, rho=rho, classA=classA, fac=fac, hmax=hmax, hmin=hmin)
 
 
-def run_spec(spec, points, tier, visit):
+def run_spec(spec, points, tier, visit, quick_slice=0, honesty=False):
     """Execute every configuration of one spec; visit(cfg, gen, comb, terms, res, form) per call.
     form: 'scalar' | ('array', index)"""
     fun = spec_fun(spec)
@@ -119,10 +119,13 @@ def run_spec(spec, points, tier, visit):
     methods = cm.METHODS if real else ['central', 'forward', 'backward']
     ncalls = 0
     d1 = tier == 'thorough' and real and jets.depth(spec[1]) <= 1 or (tier == 'thorough' and not real and spec[0] == 'rot')
+    q1 = tier == 'quick' and real and jets.depth(spec[1]) <= 1 and fw.h64(spec) % 4 == quick_slice
     for method in methods:
         gens = [('default', {})]
         if d1:
-            gens = gens + cm.gen_menu(method)
+            gens = gens + cm.gen_menu(method, honesty)
+        elif q1:
+            gens = gens + cm.quick_gen_menu(method, honesty)
         for gen in gens:
             for n in range(0, cm.NMAX[method] + 1):
                 orders = ([1, 2, 4, 6] if deep else cm.ORDERS) if gen[0] == 'default' else [1, 2, 3, 4]
@@ -161,7 +164,7 @@ def _elem(v, form):
     return complex(a.ravel()[form[1]]) if a.size > form[1] else None
 
 
-def work(chunk, points=None, tier='quick'):
+def work(chunk, points=None, tier='quick', quick_slice=0):
     acc = fw.Acc()
     fnfun = {}
     for spec in chunk:
@@ -220,14 +223,14 @@ def work(chunk, points=None, tier='quick'):
                               '> E=%g x S_n=%.3g x fac=%.3g' % (show, n, method, order, gen, comb.x, v, exact, err,
                                                                  E, t['S'], t['fac']), rank)
 
-        run_spec(spec, points, tier, visit)
+        run_spec(spec, points, tier, visit, quick_slice)
     return acc
 
 
 def run(ctx):
     sp = specs(ctx)
     points = cm.quick_points(ctx) if ctx.quick else cm.POINTS
-    acc = ctx.pmap(work, sp, chunk=1 if not ctx.quick else 2, points=points, tier=ctx.tier)
+    acc = ctx.pmap(work, sp, chunk=1 if not ctx.quick else 2, points=points, tier=ctx.tier, quick_slice=ctx.seed % 4)
     for s in sp[:3] + sp[len(sp) // 2:len(sp) // 2 + 2] + sp[-2:]:
         acc.sample(dict(f=spec_show(s), points=points[:4], configs='all (method, n, order): %d' % len(cm.configs())))
     if CALIBRATE:
